@@ -41,7 +41,11 @@ package ndjsoncommon
 //@   ensures row_dynamic_array: isGen(t) && typeof(dimOf(t)) == *dsl.Array && !dimOf(t).(*dsl.Array).IsFixed() ==> result == JsonObject
 //@   ensures row_map_string_key: isGen(t) && typeof(dimOf(t)) == *dsl.Map && keyIsString(dimOf(t).(*dsl.Map).KeyType) ==> result == JsonObject
 //@   ensures row_map_other_key:  isGen(t) && typeof(dimOf(t)) == *dsl.Map && !keyIsString(dimOf(t).(*dsl.Map).KeyType) ==> result == JsonArray
+//@   invariant 0: rangeindex + 1 > 0 ==> all != 0
 //@   ensures never_empty:  result != 0
+
+// Generating code for an accepted package never panics (C08): the no-panic obligations of this file.
+//@ sweep C08 file internal/ndjsoncommon/ndjsoncommon.go
 
 // Output and diagnostics may not depend on the iteration order of a Go map (C12): decided per `range` over a map.
 //@ map-order C12 package
